@@ -274,9 +274,10 @@ Print Assumptions wf_step_noob_partial.
    CC: a transcription of compile.go on a fragment (coq/CC/CompModel.v), tied to the real compiler
    on every run (frag_tie in VMX/VmCases.v), and what is proved about it.
 
-   The full statement - NOT proved. It needs, besides what follows, (i) the composition of the
-   operand lemmas into binary/unary operations, statements and chunks against isem and (ii) the
-   agreement of the reference evaluator with the direct semantics prun on the fragment. *)
+   The full statement is proved at the end of this block (frag_compile_correct_thm) from three
+   parts: the back half (the VM model runs straight-line code as isem says), the reference half
+   (the reference evaluator is prun on the fragment) and the front half (compileChunk's code
+   denotes prun under isem). *)
 From GL Require Import CC.CompModel CC.FragSem.
 From GL Require CC.CompFactsVM CC.CompFacts.
 
@@ -300,17 +301,20 @@ Theorem vm_runs_isem_partial : forall ul consts nregs fuel,
 Proof. exact CompFactsVM.vm_runs_isem_lemma. Qed.
 Print Assumptions vm_runs_isem_partial.
 
-(* Front half, partial: the leaves of expressions (literals, locals, parentheses) compile to one
-   instruction that leaves pev's value in the target register, keeps the registers below it, extends
-   the constant table only at its end, and has the shape the propagation peephole looks for. *)
-Theorem frag_expr_leaf_correct_partial : forall e locals ln reg ec s inc s',
-  CompFacts.expr_leaf locals e = true -> cs_locals s = locals -> cs_regtop s = len locals ->
+(* Front half, expressions: every expression of the fragment (literals, locals, parentheses,
+   the six arithmetic operators with constant folding and the RK-operand peephole, unary minus,
+   not) compiles to code that, from any register file of simple values, either leaves pev's value
+   in the target register (keeping the registers below it), or stops with the arithmetic fault at
+   the expression's line, or leaves the exact arithmetic - exactly as pev says; the constant table
+   only grows at its end and the code has the shape the propagation peephole looks for. *)
+Theorem frag_expr_correct : forall e locals ln reg ec s inc s',
+  expr_frag locals e = true -> cs_locals s = locals -> cs_regtop s = len locals ->
   len locals <= reg -> 0 <= reg -> reg + edepth e < 256 -> len locals <= 256 ->
   savereg ec reg = reg -> len (cs_consts s) <= 262144 ->
   compileExpr ln reg e ec s = Some (inc, s') ->
   inc = 1 /\ CompFacts.expr_ok s s' locals ln reg e.
-Proof. exact CompFacts.compileExpr_leaf_ok. Qed.
-Print Assumptions frag_expr_leaf_correct_partial.
+Proof. exact CompFacts.compileExpr_ok. Qed.
+Print Assumptions frag_expr_correct.
 
 (* PropagateKMV / PropagateMV are sound: after compiling an operand, the (possibly popped) code
    plus the RK operand they return denote the operand's value, and later code that only writes
@@ -325,7 +329,7 @@ Print Assumptions propagateKMV_sound.
 Theorem propagateMV_sound : forall s s1 locals ln reg e save reg' s2,
   CompFacts.expr_ok s s1 locals ln reg e -> len locals <= reg -> 0 <= reg < 256 -> len locals <= 256 ->
   propagateMV reg 1 s1 = Some ((save, reg'), s2) ->
-  CompFacts.operand_ok s s2 locals ln reg e save reg'.
+  CompFacts.operand_ok s s2 locals ln reg e save reg' /\ 0 <= save < 256.
 Proof. exact CompFacts.mv_ok. Qed.
 Print Assumptions propagateMV_sound.
 
@@ -370,9 +374,33 @@ Print Assumptions frag_reference_is_prun.
 
 (* the two proved halves glued: frag_compile_correct follows from the compiler's front half alone
    (the code compileChunk emits, closed with the final RETURN, denotes prun and consists of 32-bit
-   words) — named partial: the front half itself is not yet proved *)
+   words) *)
 From GL Require CC.FragGlue.
 
 Theorem frag_compile_correct_partial : FragGlue.front_half -> frag_compile_correct.
 Proof. exact FragGlue.frag_glue. Qed.
 Print Assumptions frag_compile_correct_partial.
+
+(* ---- frag_compile_correct, compiler front half (coq/CC/CompFacts.v) ----
+   Statements: a single `local x = e`, a single `x = e` on a local and `return es` compile to code
+   that steps the register file in lockstep with prun's environment (env_rel), or stops with
+   prun's fault / Unsup; chunks by induction. *)
+Theorem frag_chunk_correct : forall b locals s u s',
+  stmts_frag locals b = true -> CompFacts.cinv s locals -> compileChunk b s = Some (u, s') ->
+  len (cs_consts s') <= 262144 /\ CompFacts.prefix_of (cs_consts s) (cs_consts s') /\
+  exists seg, cs_code s' = seg ++ cs_code s /\ Forall CompFacts.u32 seg /\
+    forall K, CompFacts.prefix_of (cs_consts s') K -> forall rho rf fin,
+      CompFacts.env_rel rho locals rf -> CompFacts.rf_simple rf ->
+      isem_code K (rev seg ++ [CompFacts.final_ret fin]) rf = prun rho b.
+Proof. exact CompFacts.chunk_ok. Qed.
+Print Assumptions frag_chunk_correct.
+
+Theorem frag_compile_front_half : FragGlue.front_half.
+Proof. exact CompFacts.front_half_lemma. Qed.
+Print Assumptions frag_compile_front_half.
+
+(* THE theorem: on the fragment F0, the prototype the transcribed compiler produces, run by the VM
+   model, has the observable outcome of the reference evaluator on the source program. *)
+Theorem frag_compile_correct_thm : frag_compile_correct.
+Proof. exact (FragGlue.frag_glue CompFacts.front_half_lemma). Qed.
+Print Assumptions frag_compile_correct_thm.
